@@ -409,6 +409,18 @@ def check_freshness(ctx):
             if p_.raises():
                 continue
             stores = [e for e in p_.effects if e.kind == 'store_attr' and canon(e.obj) == 'self' and e.name == 'template']
+            # the prototype replaced by "a new instance of the class" on some path
+            cls_clone = [e for e in p_.effects if e.kind == 'store_attr' and canon(e.obj) == 'self' and e.name == 'clone'
+                         and canon(e.value) in ('%s.__class__' % pparam, 'type(%s)' % pparam)]
+            if cls_clone:
+                gts_ = p_.guard_texts()
+                by_eq = [g for g in gts_ if pparam in g and ('==' in g or '!=' in g)]
+                stc = 'path [%s]: self.clone = %s' % ('; '.join(gts_)[:100], canon(cls_clone[0].value))
+                if by_eq:
+                    ctx.violation(rule, ini, stc, 'packets built from the declaration get a new default instance of the class instead of a copy of the declared packet, on a path chosen by ==, which compares field values only: what the prototype keeps outside its fields (a forced descriptor-managed value, Any placeholders) is lost', cls_clone[0].lineno, witness=True)
+                else:
+                    ctx.undecided(rule, ini, stc, 'the class itself stands in for the snapshot on this path: cannot see that the declared packet is in its default state', cls_clone[0].lineno)
+                continue
             if not stores:
                 ctx.violation(rule, ini, 'Prototype.__init__ path [%s]' % '; '.join(p_.guard_texts())[:100], 'no template is kept on this path', ini.node.lineno)
                 continue
